@@ -89,7 +89,14 @@ func SolveAll(v *FnVC, timeoutMs int, scratch string, sem chan struct{}) (vacuou
 		sem <- struct{}{}
 		out, _ := runSolver(solvers[0], ctxText+"(check-sat)\n", 3000)
 		<-sem
-		ctxDone <- strings.TrimSpace(strings.SplitN(strings.TrimSpace(out), "\n", 2)[0])
+		st := "unknown"
+		for _, l := range strings.Split(out, "\n") {
+			l = strings.TrimSpace(l)
+			if l == "sat" || l == "unsat" || l == "unknown" || l == "timeout" {
+				st = l
+			}
+		}
+		ctxDone <- st
 	}()
 	for i, o := range v.obligs {
 		b.WriteString(fmt.Sprintf("(push 1)\n%s\n(echo \"OB %d\")\n(check-sat)\n(pop 1)\n", obligQuery(o), i))
